@@ -236,3 +236,53 @@ def mixed_abs_rel(ctx, rng, ntrees=3):
                         rel, fv, sorted(x.replace(T.root, '<root>') for x in want - set(res))[:4], sorted(x.replace(T.root, '<root>') for x in set(res) - want)[:4]),
                         {'patterns': rel, 'flags': fv, 'tree': sp, 'absolute_index': which})
     return n
+
+
+def frontends_equiv(ctx, rng):
+    """The same walk through every way of addressing the tree and every front end: `dir_fd=` vs `root_dir=` (also when
+    the directory to list is a symlink), `iglob` vs `glob`, `pathlib.Path.glob` vs `glob.glob` (SCANDOTDIR kept), and
+    pickled / copied REALPATH matchers vs the original.  Returns the number of evaluations."""
+    import copy
+    import pickle
+    import trees
+    from wcmatch import glob as Gm, pathlib as PLm
+    n = 0
+    pats = [('vis/*', 0), ('*/x.txt', 0), ('vis/**', Gm.GLOBSTAR), ('**/*.txt', Gm.GLOBSTAR | Gm.FOLLOW), ('***/*.txt', Gm.GLOBSTARLONG), ('*/', 0),
+            ('vis/x.txt', 0), ('**/vis/*.txt', Gm.GLOBSTAR), ('*', Gm.MARK), ('p1/lnk/*', 0), ('*/lnk/x/*', 0), ('p/a/q/*', 0), ('p/*/q/**', Gm.GLOBSTAR),
+            ('.*', Gm.SCANDOTDIR), ('*/.*', Gm.SCANDOTDIR), ('.*/', Gm.SCANDOTDIR), ('.*', Gm.SCANDOTDIR | Gm.DOTGLOB), ('.*', 0), ('**/.*', Gm.GLOBSTAR | Gm.SCANDOTDIR)]
+    for spec in (trees.DESIGNED[0], trees.DESIGNED[4], trees.DESIGNED[5], trees.DESIGNED[2]):
+        with trees.Tree(spec) as T:
+            fd = os.open(T.root, os.O_RDONLY)
+            try:
+                for pat, fl in pats:
+                    n += 1
+                    a = sorted(Gm.glob(pat, flags=fl, root_dir=T.root))
+                    b = sorted(Gm.glob(pat, flags=fl, dir_fd=fd))
+                    c_ = sorted(Gm.iglob(pat, flags=fl, root_dir=T.root))
+                    if not (a == b == c_):
+                        ctx.counterexample('glob(%r, %s): root_dir gives %r, dir_fd %r, iglob %r' % (pat, corr.flag_names(fl), a[:6], b[:6], c_[:6]),
+                                           {'pattern': pat, 'flags': corr.flag_names(fl), 'tree': spec})
+                        continue
+                    # pathlib: same entries (as paths); `.`/`..` results keep their spelling through joinpath only partly,
+                    # so compare the multiset of normalised strings
+                    if not pat.endswith('/'):
+                        pl = sorted(os.path.normpath(str(x)) for x in PLm.Path(T.root).glob(pat, flags=fl & PLm.FLAG_MASK | (fl & Gm.SCANDOTDIR)))
+                        want = sorted(os.path.normpath(os.path.join(T.root, x)) for x in a)
+                        if (fl & Gm.SCANDOTDIR) or not any(s in ('.', '..') for x in a for s in x.split('/')):
+                            if sorted(set(pl)) != sorted(set(want)):
+                                ctx.counterexample('Path.glob(%r, %s) = %r but glob.glob gives %r' % (
+                                    pat, corr.flag_names(fl), [p_.replace(T.root, '<root>') for p_ in pl][:6], [p_.replace(T.root, '<root>') for p_ in want][:6]),
+                                    {'pattern': pat, 'flags': corr.flag_names(fl), 'tree': spec})
+                # clones of REALPATH matchers answer like the original on every entry (also through links)
+                ents = T.entries_follow(3)
+                for pat, fl in (('**/*.txt', Gm.GLOBSTAR), ('vis/**', Gm.GLOBSTAR), ('**/x*', Gm.GLOBSTAR | Gm.MATCHBASE), ('**', Gm.GLOBSTAR | Gm.FOLLOW), ('p/**/x', Gm.GLOBSTAR)):
+                    m0 = Gm.compile(pat, flags=fl | Gm.REALPATH)
+                    for how, m1 in (('pickle', pickle.loads(pickle.dumps(m0))), ('deepcopy', copy.deepcopy(m0)), ('copy', copy.copy(m0))):
+                        n += 1
+                        bad = [e for e in ents if m0.match(e, root_dir=T.root) != m1.match(e, root_dir=T.root)]
+                        if bad or m0 != m1 or m0.filter(ents, root_dir=T.root) != m1.filter(ents, root_dir=T.root):
+                            ctx.counterexample('a %s of glob.compile(%r, %s|REALPATH) answers differently on %r' % (how, pat, corr.flag_names(fl), bad[:4]),
+                                               {'pattern': pat, 'flags': corr.flag_names(fl), 'how': how, 'tree': spec, 'paths': bad[:6]})
+            finally:
+                os.close(fd)
+    return n
